@@ -263,6 +263,37 @@ def run(db: DB, rep: Report) -> None:
                   "the position variables of time ranks when slip is on, so the stamp reads names that are "
                   "never bound (or stale ones from an earlier Einsum)" % sorted(m))
 
+    # ---- D11: coordinates that name a loop variable come from get_iter_ranks ---------
+    rep.rule("D11", "a stamp coordinate that names a loop's variable is derived through get_iter_ranks", 1)
+    rc = C_.methods.get("__rel_coord")
+    if rc is None:
+        raise AnalysisError("Canvas.__rel_coord not found")
+    rank_param = rc.call_params[0]
+    low = {n.targets[0].id for n in walk_no_nested(rc.node) if isinstance(n, ast.Assign) and
+           isinstance(n.targets[0], ast.Name) and norm(n.value) == rank_param + ".lower()"}
+    n_d11 = 0
+    for r in [n for n in walk_no_nested(rc.node) if isinstance(n, ast.Return) and n.value is not None]:
+        v = r.value
+        # a bare EVar(<rank>.lower()) names the loop variable of that rank
+        direct = [x for x in ast.walk(v) if isinstance(x, ast.Call) and norm(x.func) == "EVar" and x.args and
+                  ((isinstance(x.args[0], ast.Name) and x.args[0].id in low) or
+                   norm(x.args[0]) == rank_param + ".lower()")]
+        if not direct:
+            continue
+        n_d11 += 1
+        guarded = False
+        for t, pol in paths.guards(r, stop=rc.node):
+            txt = paths.inlined_text(t, rc.node)
+            if "get_iter_ranks" in txt:
+                guarded = True
+        rep.check("D11", guarded, db.loc(r), rc.short, "loop-var-coord:" + norm(v)[:50],
+                  "%s is returned only after consulting get_iter_ranks" % norm(v)[:40],
+                  "Canvas.__rel_coord returns %s, naming the coordinate after the rank itself, without "
+                  "consulting LoopOrder.get_iter_ranks: the loop over a flattened innermost rank binds one "
+                  "variable per flattened rank, so the stamp reads a name no loop binds" % norm(v)[:50])
+    if n_d11 < 1:
+        raise AnalysisError("no loop-variable coordinate found in Canvas.__rel_coord")
+
     # ---- D9: displayed tensors are state-preserving copies --------------------------
     rep.rule("D9", "the canvas displays the tensors themselves or deep copies of them", 2)
     cc_ = C_.methods["create_canvas"]
@@ -468,6 +499,9 @@ def mutants(db: DB):
           "D7"),
         M("time tuple under slip with empty space", cv, "        if spacetime.get_slip():\n            bop = EBinOp(",
           "        if spacetime.get_slip() and spacetime.get_space():\n            bop = EBinOp(", "D8"),
+        M("revert F6 fix (coordinate named after the rank)", cv,
+          "                if len(iter_ranks) == 1:\n                    return EVar(rank_str)\n\n                return ETuple([EVar(iter_rank.lower())\n                               for iter_rank in iter_ranks])",
+          "                return EVar(rank_str)", "D11"),
         M("canvas tensors rebuilt instead of copied", cv, "                self.tensors.append(deepcopy(tensor))",
           "                self.tensors.append(Tensor(tensor.root_name(), tensor.get_ranks()))", "D9"),
         M("slip counter keyed by the time tuple", gr, "                space_tup = self.canvas.get_space_tuple()",
